@@ -152,6 +152,7 @@ func (b *Bridge) Total() int {
 
 type bridgeWriter struct {
 	hdr    http.Header
+	sent   http.Header // snapshot of the header at WriteHeader time: what the peer sees
 	status int
 	wrote  bool
 	ready  chan struct{}
@@ -164,7 +165,7 @@ func (w *bridgeWriter) WriteHeader(code int) {
 	if !w.wrote {
 		w.wrote = true
 		w.status = code
-		w.hdr = w.hdr.Clone()
+		w.sent = w.hdr.Clone()
 		w.once.Do(func() { close(w.ready) })
 	}
 }
@@ -303,7 +304,7 @@ func (b *Bridge) Handle(ctx context.Context, _ *http.Client, req *http.Request) 
 	resp := &http.Response{
 		Status: fmt.Sprintf("%d %s", w.status, http.StatusText(w.status)), StatusCode: w.status,
 		Proto: "HTTP/1.1", ProtoMajor: 1, ProtoMinor: 1,
-		Header: w.hdr, Body: &bridgeBody{pipe: pipe, cancel: cancel, b: b}, ContentLength: -1, Request: req,
+		Header: w.sent, Body: &bridgeBody{pipe: pipe, cancel: cancel, b: b}, ContentLength: -1, Request: req,
 	}
 	return resp, nil
 }
